@@ -439,8 +439,78 @@ def check_gitignore(ctx: Ctx) -> None:
         a0 = c.args[0] if c.args else None
         ok = isinstance(a0, ast.Constant) and a0.value in ("gitignore", "gitwildmatch")
         ctx.ob("R-GITIGNORE-G4", f"{f.qual} :: {norm(c)[:60]}", ok, "ignore patterns must be compiled with pathspec's gitignore syntax", where(f, c))
+        # G5 gitignore rules are order-sensitive (the last matching line wins, negations in between matter): the lines must
+        # reach the compiler in file order and with their repetitions
+        lines_arg = c.args[1] if len(c.args) > 1 else next((k.value for k in c.keywords if k.arg == "lines"), None)
+        node = prog.flow(f).node_of(c)
+        if lines_arg is not None and node is not None:
+            sl = prog.slice(f, lines_arg, node)
+            breaking = sorted({nm for nm, _c in sl.calls if nm.split(".")[-1] in ORDER_BREAKING or nm in ORDER_BREAKING})
+            stepped = [x for n2 in sl.nodes for ex in prog.flow(f).node_exprs(n2) for x in ast.walk(ex) if isinstance(x, ast.Slice) and x.step is not None]
+            ctx.ob("R-GITIGNORE-G5", f"{f.qual} :: rule lines reach the compiler in file order, repetitions included", not breaking and not stepped,
+                   "git applies the rules of an ignore file in order, the last matching line wins: de-duplicating, sorting or reversing the lines "
+                   f"changes which files are ignored (e.g. `*.gen.md`, `!keep.gen.md`, `*.gen.md`); the lines pass through {breaking or 'a stepped slice'}",
+                   where(f, c))
     # comments / blank lines of ignore files are dropped before compilation, nothing else
     ctx.assume("pathspec implements gitignore pattern syntax correctly (dependency)")
+
+
+ORDER_BREAKING = {"set", "frozenset", "sorted", "reversed", "fromkeys", "dict.fromkeys", "Counter", "unique", "OrderedDict.fromkeys"}
+MUTATORS = {"append", "extend", "insert", "remove", "pop", "clear", "sort", "reverse", "update", "add", "discard", "setdefault", "popitem"}
+
+
+def check_cached_values_not_mutated(ctx: Ctx) -> None:
+    """A value that lives in a memo table (or comes out of a memoising method) is shared by every later hit: it must not be
+    changed in place. (Typestate: cached -> read-only.)"""
+    repo, prog = ctx.repo, ctx.prog
+    funcs = [f for f in repo.functions.values() if f.module.name.startswith("flowmark.file_resolver") and not isinstance(f.node, ast.Lambda)]
+
+    def is_cache_attr(e: ast.AST, fi: FuncInfo) -> bool:
+        return isinstance(e, ast.Attribute) and isinstance(e.value, ast.Name) and fi.params and e.value.id == fi.params[0] and "cache" in e.attr
+
+    def from_cache(o) -> bool:
+        """origin is a read of a cache table: self._x_cache.get(k) / self._x_cache[k]"""
+        if isinstance(o, tuple) and o[0] == "call" and isinstance(o[1], str) and "cache" in o[1] and o[1].endswith(".get"):
+            return True
+        if isinstance(o, tuple) and o[0] == "index" and isinstance(o[1], tuple) and o[1][0] == "attr" and "cache" in str(o[1][2]):
+            return True
+        return False
+
+    # memoising functions: they store a value in a cache table and hand the same object to their caller
+    memo: set[str] = set()
+    for f in funcs:
+        flow = prog.flow(f)
+        stored: set[int] = set()
+        for n in flow.cfg.nodes:
+            if n.kind == "stmt" and isinstance(n.ast, ast.Assign) and len(n.ast.targets) == 1 and isinstance(n.ast.targets[0], ast.Subscript) \
+                    and is_cache_attr(n.ast.targets[0].value, f) and isinstance(n.ast.value, ast.Name):
+                stored |= {d.id for d in flow.reaching(n, n.ast.value.id)}
+        for r in flow.cfg.returns():
+            v = r.ast.value
+            if isinstance(v, ast.Name):
+                if {d.id for d in flow.reaching(r, v.id)} & stored or any(from_cache(o) for o in origins(prog, f, v, r)):
+                    memo.add(f.qual)
+    ctx.note("memoising_functions", sorted(memo))
+    n_sites = 0
+    for f in funcs:
+        flow = prog.flow(f)
+        for n in flow.cfg.nodes:
+            targets: list[tuple[ast.AST, str]] = []
+            for c in flow.calls_in(n):
+                if isinstance(c.func, ast.Attribute) and c.func.attr in MUTATORS and isinstance(c.func.value, ast.Name):
+                    targets.append((c.func.value, f".{c.func.attr}()"))
+            if n.kind == "stmt" and isinstance(n.ast, ast.AugAssign) and isinstance(n.ast.target, ast.Name):
+                targets.append((ast.Name(id=n.ast.target.id, ctx=ast.Load()), " += ..."))
+            if n.kind == "stmt" and isinstance(n.ast, ast.Assign) and isinstance(n.ast.targets[0], ast.Subscript) and isinstance(n.ast.targets[0].value, ast.Name):
+                targets.append((n.ast.targets[0].value, "[...] = ..."))
+            for recv, what in targets:
+                n_sites += 1
+                org = origins(prog, f, recv, n)
+                shared = [o for o in org if from_cache(o) or (isinstance(o, tuple) and o[0] == "call" and o[1] in memo)]
+                ctx.ob("R-RESOLVE-cache", f"{f.qual} :: {norm(recv)}{what} does not modify a cached value", not shared,
+                       f"`{norm(recv)}` may be the very object stored in a memo table ({', '.join(fmt_origin(o) for o in shared)}); changing it in place "
+                       "changes what every later cache hit returns (e.g. one list of .gitignore specs shared by all directories of a walk)", where(f, n))
+    ctx.require("R-RESOLVE-cache", "in-place mutation sites in the file resolver", n_sites, 3)
 
 
 def check_cache_keys(ctx: Ctx) -> None:
